@@ -75,17 +75,27 @@ def check(run, ctx):
     T2 = run.rule("T2", "SRPConfig.from_dict reads max_methods and max_loc in the language-override branch and in the default branch", floor=2)
     fd = repo.func(f"{PKG}.config.SRPConfig.from_dict")
     top = next((n for n in fd.node.body if isinstance(n, ast.If) and "language" in ast.unparse(n.test)), None)
-    run.require(top is not None, "SRPConfig.from_dict: no language branch")
+    cpar = fd.node.args.args[1].arg
+    lang_names = {t.id for n in ast.walk(fd.node) if isinstance(n, ast.Assign) for t in n.targets if isinstance(t, ast.Name)
+                  and any(isinstance(x, ast.Name) and x.id == "language" for x in ast.walk(n.value)) and any(isinstance(x, ast.Name) and x.id == cpar for x in ast.walk(n.value))}
+    run.require(bool(lang_names), "SRPConfig.from_dict: no mapping derived from config[language]")
     for key in ("max_methods", "max_loc"):
-        in_body = any(isinstance(c, ast.Constant) and c.value == key for s in top.body for c in ast.walk(s))
-        in_else = any(isinstance(c, ast.Constant) and c.value == key for s in top.orelse for c in ast.walk(s))
-        lang_read = any(isinstance(c, ast.Call) and call_name(c) == "get" and ast.unparse(c.func.value) == "lang_config" and c.args and isinstance(c.args[0], ast.Constant) and c.args[0].value == key for s in top.body for c in ast.walk(s))
-        if in_body and in_else and lang_read:
-            run.ok(T2, f"from_dict[{key}]", "override branch (language level, section fallback) and default branch")
+        def reads(recv_names):
+            return [c for c in ast.walk(fd.node) if isinstance(c, ast.Call) and call_name(c) == "get" and isinstance(c.func.value, ast.Name) and c.func.value.id in recv_names and c.args and isinstance(c.args[0], ast.Constant) and c.args[0].value == key]
+        lang_read, sect_read = reads(lang_names), reads({cpar})
+        if top is not None:
+            in_body = any(isinstance(c, ast.Constant) and c.value == key for s_ in top.body for c in ast.walk(s_))
+            in_else = any(isinstance(c, ast.Constant) and c.value == key for s_ in top.orelse for c in ast.walk(s_))
+            ok = in_body and in_else and bool(lang_read)
         else:
-            run.finding(T2, "SRPConfig.from_dict", f"branch-asymmetry:{key}", f"{key} is not handled alike in the language-override and default branches: per-language overrides would apply to one threshold only", fd.loc)
-    test = ast.unparse(top.test)
-    (run.ok(T2, "override condition", test) if test == "language and language in config" else run.finding(T2, "SRPConfig.from_dict", f"override-cond:{test}", "language overrides are not selected by `language in config`", fd.loc))
+            ok = bool(lang_read) and bool(sect_read)
+        if ok:
+            run.ok(T2, f"from_dict[{key}]", "read at the language level with the section level as fallback, and at the section level when there is no override")
+        else:
+            run.finding(T2, "SRPConfig.from_dict", f"branch-asymmetry:{key}", f"{key} is not read at both the language level and the section level: per-language overrides would apply to one threshold only", fd.loc)
+    if top is not None:
+        test = ast.unparse(top.test)
+        (run.ok(T2, "override condition", test) if test == "language and language in config" else run.finding(T2, "SRPConfig.from_dict", f"override-cond:{test}", "language overrides are not selected by `language in config`", fd.loc))
 
     T3 = run.rule("T3", "one violation per metrics record: _create_violation_if_needed builds at most one violation from all issues; the builder joins issues once", floor=2)
     cv = repo.func(f"{PKG}.linter.SRPRule._create_violation_if_needed")
